@@ -327,6 +327,57 @@ func checkC14(c *Ctx) {
 		c.note("uw:"+lst(items...), true)
 		c.count("unwrap")
 	}
+	// (g) the plugin client fed hostile plugin OUTPUT: valid conversations of both state machines and
+	// grammar-aware mutations of them (digit edits reach negative and huge indexes), through C16's machinery
+	// (client bytes and result vs the model) under recover + watchdog
+	{
+		pe := setupPluginEnv()
+		ui := uiCfg{"ok", "ok", "yes"}
+		hdr := []*age.Stanza{{Type: "X25519", Args: []string{"abc"}, Body: []byte("body")}, {Type: "other", Args: []string{"x"}, Body: nil}}
+		rSeeds := []string{
+			"-> recipient-stanza 0 X25519 abc\nQUJD\n-> done\n\n",
+			"-> labels a b\n\n-> recipient-stanza 0 t\n\n-> recipient-stanza 0 u v\nQUJD\n-> done\n\n",
+			"-> msg\naGVsbG8\n-> confirm eWVz bm8\ncHJvbXB0\n-> recipient-stanza 0 t\n\n-> done\n\n",
+			"-> error recipient 0\nYm9vbQ\n", "-> error internal\nYm9vbQ\n-> done\n\n",
+		}
+		iSeeds := []string{
+			"-> file-key 0\nQUJDREVGQUJDREVGQUJDRA\n-> done\n\n",
+			"-> request-secret\ncGlu\n-> file-key 0\nQUJDREVGQUJDREVGQUJDRA\n-> done\n\n",
+			"-> error stanza 0 0\nYm9vbQ\n", "-> error stanza 0 1\nYm9vbQ\n-> done\n\n", "-> error identity 0\nYm9vbQ\n", "-> error internal\nYm9vbQ\n",
+			"-> msg\naGVsbG8\n-> done\n\n",
+		}
+		hand := []string{"-> error stanza 0 -1\nYm9vbQ\n", "-> error stanza -1 0\nYm9vbQ\n", "-> error stanza 0 99999999999999999999\nYm9vbQ\n", "-> error stanza 0\nYm9vbQ\n", "-> error stanza\nYm9vbQ\n",
+			"-> file-key -1\nQUJDREVGQUJDREVGQUJDRA\n-> done\n\n", "-> recipient-stanza -1 t\n\n-> done\n\n", "-> error recipient -1\nYm9vbQ\n", "-> error identity -1\nYm9vbQ\n"}
+		per := c.vol(25, 400)
+		run := func(identity bool, out []byte, kind string) {
+			what := guarded(func() {
+				if identity {
+					c.c16Identity(pe, ui, "hostile:"+kind, out, hdr)
+				} else {
+					c.c16Recipient(pe, ui, "hostile:"+kind, out)
+				}
+			})
+			c.Oracle("no-panic-no-hang", what == "", "plugin-client-panic", map[string]interface{}{"entry": "plugin client", "identity_machine": identity, "plugin_output": string(out)}, what)
+			c.count("plugin-client")
+		}
+		for _, h := range hand {
+			run(true, []byte(h), "hand")
+			run(false, []byte(h), "hand")
+		}
+		for _, sd := range rSeeds {
+			run(false, []byte(sd), "seed")
+			for k := 0; k < per; k++ {
+				run(false, mutateBytes(c.rng, []byte(sd)), "mutation")
+			}
+		}
+		for _, sd := range iSeeds {
+			run(true, []byte(sd), "seed")
+			for k := 0; k < per; k++ {
+				run(true, mutateBytes(c.rng, []byte(sd)), "mutation")
+			}
+		}
+		pe.close()
+	}
 	// (f) the armor reader on mutated armor, typed errors (C08's machinery)
 	k, _ := implArmor([][]byte{c.rng.bytes(120)}, nil)
 	for i := 0; i < c.vol(200, 4000); i++ {
